@@ -328,3 +328,12 @@ def run(P: Program, rep: Report):
         rep.check(not impure, "C05.R3", f"module-constant:{name}", wmod.relpath, f"writer module global {name} is computed from {impure}")
     rep.require_count("C05.R3", "writer functions scanned", nfun, 20)
     rep.ok("C05.R3", "writer:pure", wmod.relpath, f"{nfun} functions scanned")
+
+    rep.rule("C05.R6", "the round trip re-reads what the writer emitted: the reader must implement the dialect grammar (splitter product, content class, see C02.R2)")
+    from .. import splitter_facts as _sf
+    _sf.report_product(rep, P, "C05.R6", ["content"], "parsed content", after_abort=False)
+
+    rep.rule("C05.R9", "no unsafe memoisation in the modules this property rests on: a function decorated with lru_cache / cache / "
+                      "cached_property neither takes nor returns a mutable object (else later calls see stale or shared results)")
+    from . import common as _common
+    _common.no_unsafe_memoisation(P, rep, "C05.R9", ['writer', 'entrypoint', 'middlewares.parsestack', 'middlewares.enclosing', 'middlewares.interpolate'])
